@@ -123,6 +123,9 @@ def shape_error(nd: tg.Node, x: t.Any, path: str = '$', depth: int = 0) -> t.Opt
         if not isinstance(x, numpy.ndarray):
             return f"{path}: {type(x).__name__} is not a numpy array"
         dt = getattr(nd, 'dt', None)
+        if dt in ('floating', 'integer'):
+            # (an array without elements has whatever element type numpy defaults to: an abstract family names no dtype to give it)
+            return None if (x.size == 0 or numpy.issubdtype(x.dtype, DTYPES[dt][0])) else f"{path}: array of dtype {x.dtype} where a numpy.{dt} element type is declared"
         if dt is not None and dt != 'generic':
             want = numpy.dtype(DTYPES[dt][0])
             # (for text dtypes the width is incidental: compare the kind)
